@@ -14,10 +14,10 @@ import (
 // alphabets: index 0 means "all 256 byte values".
 var vxAlphabets = [][]byte{
 	nil,
-	[]byte("'\"`$-/*\\\n a1.@<>=!(;eE_:#"),        // 1: lexical alphabet
-	[]byte("a1'-/* \t\n\r"),                        // 2: position alphabet
-	[]byte("-/*\na "),                              // 3: comment alphabet
-	[]byte("a ,"),                                  // 4: token-count alphabet
+	[]byte("'\"`$-/*\\\n a1.@<>=!(;eE_:#"), // 1: lexical alphabet
+	[]byte("a1'-/* \t\n\r"),                // 2: position alphabet
+	[]byte("-/*\na "),                      // 3: comment alphabet
+	[]byte("a ,"),                          // 4: token-count alphabet
 }
 
 // vxInput returns a symbolic input of length 0..maxN over alphabet alpha.
@@ -186,19 +186,19 @@ func locLE(a, b models.Location) bool {
 
 var vxParams = map[string]int{}
 
-func VxC04_All2()  { vxC04(2, 0) }
-func VxC04_All3()  { vxC04(3, 0) }
-func VxC04_All4()  { vxC04(4, 0) }
-func VxC04_Lex3()  { vxC04(3, 1) }
-func VxC04_Lex4()  { vxC04(4, 1) }
-func VxC04_Pos3()  { vxC04(3, 2) }
-func VxC04_Cmt4()  { vxC04(4, 3) }
-func VxC04_Cmt5()  { vxC04(5, 3) }
-func VxC04_Lex5()  { vxC04(5, 1) }
-func VxC04_Lex6()  { vxC04(6, 1) }
-func VxC04_Pos4()  { vxC04(4, 2) }
-func VxC04_Pos5()  { vxC04(5, 2) }
-func VxC04_Pos6()  { vxC04(6, 2) }
-func VxC04_Cmt6()  { vxC04(6, 3) }
-func VxC04_Cmt7()  { vxC04(7, 3) }
-func VxC04_Cmt8()  { vxC04(8, 3) }
+func VxC04_All2() { vxC04(2, 0) }
+func VxC04_All3() { vxC04(3, 0) }
+func VxC04_All4() { vxC04(4, 0) }
+func VxC04_Lex3() { vxC04(3, 1) }
+func VxC04_Lex4() { vxC04(4, 1) }
+func VxC04_Pos3() { vxC04(3, 2) }
+func VxC04_Cmt4() { vxC04(4, 3) }
+func VxC04_Cmt5() { vxC04(5, 3) }
+func VxC04_Lex5() { vxC04(5, 1) }
+func VxC04_Lex6() { vxC04(6, 1) }
+func VxC04_Pos4() { vxC04(4, 2) }
+func VxC04_Pos5() { vxC04(5, 2) }
+func VxC04_Pos6() { vxC04(6, 2) }
+func VxC04_Cmt6() { vxC04(6, 3) }
+func VxC04_Cmt7() { vxC04(7, 3) }
+func VxC04_Cmt8() { vxC04(8, 3) }
